@@ -149,6 +149,15 @@ func (g *Gen) genForeign() *FImg {
 			f.Descs[i] = FDesc{Used: false, DT: pick(r, dataTypes), ID: uint32(r.Intn(9)), GID: uint32(r.U64()), Link: uint32(r.U64()),
 				Off: int64(r.Intn(100000)), Size: int64(r.Intn(1000)), SizePad: int64(r.Intn(1000)), CT: int64(r.Intn(1 << 30)), MT: int64(r.Intn(1 << 30)),
 				UID: int64(r.Intn(3)), GIDow: int64(r.Intn(3)), Name: r.Bytes(r.Intn(129)), Extra: r.Bytes(r.Intn(385))}
+			if r.Chance(1, 4) {
+				// the loader accepts anything in a slot that is not in use
+				f.Descs[i].Off = -int64(1 + r.Intn(100000))
+				g.count("foreign:unused-negative-offset")
+			}
+			if r.Chance(1, 4) {
+				f.Descs[i].Size = -int64(1 + r.Intn(100000))
+				g.count("foreign:unused-negative-size")
+			}
 		}
 	}
 	g.count(fmt.Sprintf("foreign:n%d-used%d", n, nu))
